@@ -304,7 +304,7 @@ fn check_slope(spec: &ProbSpec, x0: f64, back: bool, m: Meth, analytic_jac: bool
 fn check_pade(re: f64, im: f64, h: f64, x0: f64, back: bool, u0: [f64; 2]) -> Outcome {
     let d = if back { -1.0 } else { 1.0 };
     // intrinsic time = |t - x0| (theta = 1 over a unit interval, no warp); lambda = z / h
-    let spec = ProbSpec { blocks: vec![Block::Pair { a: re / h, b: im / h, u0 }], warp: Warp { theta: 1.0, k: 0, beta: 0.0 }, mix: None };
+    let spec = ProbSpec { blocks: vec![Block::Pair { a: re / h, b: im / h, u0 }], warp: Warp { theta: 1.0, k: 0, beta: 0.0 }, mix: None, mag2: 0 };
     let prob = Prob::new(&spec, x0, x0 + d);
     let y1 = match one_step(Meth::RADAU, &prob, x0, d * h, true) {
         Some(y) => y,
@@ -432,7 +432,7 @@ fn check_scaling(m: Meth, a: f64, b: f64, theta: f64, x0: f64, back: bool) -> Ou
         Meth::DOP853 => (8.0, 7.0, 12.5),
         _ => return Outcome::triv("n/a"),
     };
-    let spec = ProbSpec { blocks: vec![Block::Pair { a, b, u0: [1.0, 0.3] }, Block::Real { lam: -0.2, u0: 0.7 }], warp: Warp { theta, k: 0, beta: 0.0 }, mix: None };
+    let spec = ProbSpec { blocks: vec![Block::Pair { a, b, u0: [1.0, 0.3] }, Block::Real { lam: -0.2, u0: 0.7 }], warp: Warp { theta, k: 0, beta: 0.0 }, mix: None, mag2: 0 };
     let prob = Prob::new(&spec, x0, x0 + d * theta);
     let none: Vec<EvSpec> = vec![];
     let mut xs = vec![];
